@@ -201,7 +201,11 @@ class LoggedModel:
     """A user model whose outputs are exactly representable small dyadic numbers,
     so that the real float arithmetic of `logar` is exact.  Logs every call."""
 
-    def __init__(self, params, kind='quad', blobs=False, box=None, ints=(), stateful=False):
+    def __init__(self, params, kind='quad', blobs=False, box=None, ints=(), stateful=False, reuse_blob=False):
+        # reuse_blob: the model hands out ONE blob dictionary, refilled on every call (a legal way to
+        # avoid allocations): whoever keeps the object instead of its values sees it change later
+        self.reuse_blob = reuse_blob
+        self._blob = {}
         self.params = tuple(params)
         self.kind = kind
         self.blobs = blobs
@@ -244,6 +248,10 @@ class LoggedModel:
             out = (logl, logp)
         if rec is not None:
             rec.log.append(('E', dict(kw), out))
+        if self.blobs and self.reuse_blob:
+            self._blob.clear()
+            self._blob.update(blob)
+            return (logl, logp, self._blob)
         return out
 
 
